@@ -377,9 +377,9 @@ fn after_ok(wd: &mut World, r: &mut Reporter, d: &mut Driver, q: Req, h: Held, v
     // (count-based budgets only: a history's course must not depend on the clock)
     let can_create = wd.creates_done < wd.cfg.max_creates;
     let roll = wd.rng.gen_range(0..100);
-    if can_create && roll < 22 {
+    if can_create && roll < 30 {
         do_create(wd, r, d, h);
-    } else if roll < 32 && q.lock_req.is_some() {
+    } else if roll < 40 && q.lock_req.is_some() {
         d.held = Some(h);
     }
 }
@@ -387,13 +387,46 @@ fn after_ok(wd: &mut World, r: &mut Reporter, d: &mut Driver, q: Req, h: Held, v
 fn do_create(wd: &mut World, r: &mut Reporter, d: &mut Driver, h: Held) {
     let Some(target) = wd.target() else { return };
     let expiry = match wd.rng.gen_range(0..10) {
-        0..=5 => Some(target + wd.rng.gen_range(1..8)),
+        0..=5 => Some(target + wd.rng.gen_range(1..6)),
         6 => Some(0),
         _ => None,
     };
     let n_inputs = match &h {
         Held::Notes(_, _, i) | Held::Shield(_, _, i) => i.iter().map(|s| s.len()).sum::<usize>(),
     };
+    // bystanders: lock a few other outputs of the same account right before the store, so that
+    // "unlock what this transaction spends" and "unlock everything" differ observably
+    let bystander_roll = wd.rng.gen_bool(0.6);
+    if bystander_roll {
+        let (acct, own): (usize, BTreeSet<InKey>) = match &h {
+            Held::Notes(q, _, i) | Held::Shield(q, _, i) => (q.account, i.iter().flatten().copied().collect()),
+        };
+        let v = wd.m.view(&wd.sim, &wd.w, target);
+        let mut c: Vec<InKey> = lockable(wd, &v)
+            .into_iter()
+            .filter(|(k, a)| *a == acct && !own.contains(k) && lock_active(&wd.m.locks.get(k).copied(), target).is_none())
+            .filter(|(k, _)| match k {
+                InKey::Note(n) => v.notes.get(n).map_or(false, |x| x.value > 5000 && !x.spent_pending),
+                InKey::Coin(t, i) => v.coins.get(&(*t, *i)).map_or(false, |x| x.value > 5000 && !x.spent_pending),
+            })
+            .map(|x| x.0)
+            .collect();
+        c.shuffle(&mut wd.rng);
+        c.truncate(3);
+        if !c.is_empty() {
+            let o = wd.rng.gen_range(0..N_OWNERS);
+            let expiry = target + wd.rng.gen_range(2..40);
+            let refs: Vec<OutputRef> = c.iter().map(out_ref).collect();
+            let res = wd.w.db.lock_outputs(&refs, owner(o), BlockHeight::from_u32(expiry));
+            wd.log(json!({"op":"lock_outputs","why":"bystanders-before-store","owner":o,"expiry":expiry,"outputs":c.iter().map(|k| k.short()).collect::<Vec<_>>(),"ok":res.is_ok()}));
+            if res.is_ok() {
+                r.count("bystander_locks_before_store", c.len() as u64);
+                for k in c {
+                    wd.m.locks.insert(k, LockM { owner: o, expiry, by_proposal: false });
+                }
+            }
+        }
+    }
     let real_roll = wd.rng.gen_bool(0.7);
     let use_real = d.real_budget > 0 && n_inputs <= 2 && real_roll;
     let t0 = std::time::Instant::now();
@@ -457,7 +490,7 @@ fn run_history(i: u64, cfg: Cfg, rng: rand_chacha::ChaCha20Rng, r: &mut Reporter
     wd.log(json!({"op":"mine","n":wd.cfg.initial_len,"tip":wd.sim.tip_height()}));
     wd.sync();
     wd.load_taddrs();
-    for _ in 0..wd.rng.gen_range(3..8) {
+    for _ in 0..wd.rng.gen_range(5..10) {
         wd.put_coin();
     }
     r.count("ms_history_setup", t_init.elapsed().as_millis() as u64);
@@ -501,7 +534,28 @@ fn run_history(i: u64, cfg: Cfg, rng: rand_chacha::ChaCha20Rng, r: &mut Reporter
                     wd.sync();
                 }
             }
-            82..=87 => {
+            82..=84 => {
+                // advance exactly to an expiry boundary: afterwards target == expiry of some lock or
+                // of some stored pending transaction (still locked / still unexpired by one block)
+                if let Some(target) = wd.target() {
+                    let mut cands: Vec<u32> = wd.m.locks.values().map(|l| l.expiry).filter(|e| *e > target && *e <= target + 10).collect();
+                    cands.extend(wd.m.pend.iter().filter(|p| p.mined_uid.is_none()).map(|p| p.expiry).filter(|e| *e > target && *e <= target + 10));
+                    if let Some(e) = cands.choose(&mut wd.rng).copied() {
+                        let fully = wd.unscanned_ranges().is_empty() && wd.sim.tip_height() + 1 == target;
+                        if fully {
+                            let n = e - target;
+                            for _ in 0..n {
+                                let traffic = wd.rng.gen_bool(0.3);
+                                wd.mine_block(vec![], traffic);
+                            }
+                            wd.log(json!({"op":"advance_to_expiry_boundary","n":n,"tip":wd.sim.tip_height()}));
+                            wd.sync();
+                            r.count("advances_to_expiry_boundary", 1);
+                        }
+                    }
+                }
+            }
+            85..=87 => {
                 // tip advance that expires locks / pending transactions
                 let n = wd.rng.gen_range(2..9);
                 for _ in 0..n {
@@ -520,6 +574,9 @@ fn run_history(i: u64, cfg: Cfg, rng: rand_chacha::ChaCha20Rng, r: &mut Reporter
             }
             93..=95 => {
                 wd.put_coin();
+                if wd.rng.gen_bool(0.5) {
+                    wd.put_coin();
+                }
             }
             96..=97 => {
                 if let Some(h) = d.held.take() {
